@@ -640,6 +640,32 @@ def rule_bdd34(prog, found):
                                for (cc, pol) in p.pc])
             continue
         if not core:
+            # a result that is not computed by the recursion: right for
+            # every operator only if the path has looked at the operator
+            looked = any(x == OP for (cc, pol) in p.pc for x in walk(cc)) \
+                or any(e.kind == 'call' and any(x == OP for a in e.args
+                                                for x in walk(a))
+                       for e in p.log)
+            r3.inst(path='returns %s without the recursion' % repr(v)[:60],
+                    looks_at_operator=looked,
+                    condition=[('' if pol else 'not ') + repr(cc)[:80]
+                               for (cc, pol) in p.pc])
+            if looked:
+                raise Inconclusive(
+                    'R-BDD-3', 'OBDD.apply returns %s on a path that '
+                    'inspects the operator; not decided' % repr(v)[:60],
+                    oapply.where())
+            r3.fail(Finding(
+                PROP, 'R-BDD-3', oapply.where(), oapply.short(),
+                'shortcut:%s' % ','.join(
+                    ('' if pol else 'not ') + repr(cc)[:60]
+                    for (cc, pol) in p.pc[-1:]),
+                'OBDD.apply returns %s under %s without computing '
+                'operator(self, B): the same answer for every Boolean '
+                'operator cannot be right (and/or are idempotent, xor is '
+                'not; an operator need not be symmetric)' % (
+                    repr(v)[:60], [('' if pol else 'not ') + repr(cc)[:80]
+                                   for (cc, pol) in p.pc])), witness=v)
             continue
         ncore += 1
         neq = App('cmp', Const('!='), App('attr', me, Const('ordering')),
@@ -1070,4 +1096,9 @@ def run(prog, tier, seed):
                    'checked on all operand pairs over 2 (quick) / a sample '
                    'over 3 (thorough) variables',
                    'node construction is hash-consed (C16)']
-    return T.results(r1, r2, r3, r4, r5, r6), expl, assumptions, T.extra()
+    from . import c16
+    from ..report import adopt
+    dep = adopt(T.results(T(c16.rule_hc7, prog)), PROP,
+                'a stale memo entry is a wrong result of the operation')
+    return T.results(r1, r2, r3, r4, r5, r6) + dep, expl, assumptions, \
+        T.extra()
